@@ -6,14 +6,22 @@ package mount
 import (
 	"bytes"
 	"context"
+	"crypto/ecdsa"
+	"crypto/elliptic"
+	crand "crypto/rand"
+	"crypto/tls"
+	"crypto/x509"
+	"crypto/x509/pkix"
 	"encoding/json"
 	"fmt"
 	"io"
+	"math/big"
 	"math/rand"
 	"net/http"
 	"net/url"
 	"sort"
 	"strings"
+	"sync"
 	"sync/atomic"
 	"time"
 
@@ -90,6 +98,9 @@ type Case struct {
 	Extra    []string `json:"extra_patterns,omitempty"`
 	URLPath  string   `json:"url_path"`
 	Req      ReqSpec  `json:"req"`
+	// TLS: the server is built with TLSCredsOption as well (its handler is
+	// still driven in process)
+	TLS bool `json:"tls,omitempty"`
 }
 
 func chunkJSON(id string) []byte { return []byte(fmt.Sprintf(`{"id":%q,"seq":3,"text":"t"}`, id)) }
@@ -284,6 +295,9 @@ func exec(r *mon.Run, e *env, c *Case) {
 			w.WriteHeader(299)
 		})))
 	}
+	if c.TLS {
+		opts = append(opts, larking.TLSCredsOption(testTLS()))
+	}
 	var hs *http.Server
 	var err error
 	if pi := mon.Catch(func() { hs, err = larking.NewServer(e.bare, opts...) }); pi != nil {
@@ -306,13 +320,25 @@ func exec(r *mon.Run, e *env, c *Case) {
 		r.Inconclusive("mounted request did not return")
 		return
 	}
-	// extra handlers own their patterns
+	// the most specific (= longest) matching pattern owns the path, whether
+	// it is a mount's subtree or an extra handler's pattern
+	mpre, mok := mountFor(c.Patterns, c.URLPath)
 	for _, p := range c.Extra {
 		own := c.URLPath == p || (strings.HasSuffix(p, "/") && strings.HasPrefix(c.URLPath, p))
+		if own && mok && len(mpre)+1 > len(p) {
+			own = false // the mount's pattern is longer
+		}
+		if own {
+			for _, p2 := range c.Extra {
+				if p2 != p && len(p2) > len(p) && (c.URLPath == p2 || (strings.HasSuffix(p2, "/") && strings.HasPrefix(c.URLPath, p2))) {
+					own = false // a longer extra pattern matches too
+				}
+			}
+		}
 		if own {
 			if mid != before || got.Code != 299 || got.Header.Get("X-Extra") != p {
 				r.Violate("extra-handler-not-served:"+c.Req.Kind, fmt.Sprintf("%s belongs to extra handler %s but got status %d (mux calls %d)", c.URLPath, p, got.Code, mid-before), c)
-			} else if seen := got.Header.Get("X-Extra-Path"); seen != c.URLPath {
+			} else if seen := got.Header.Get("X-Extra-Path"); seen != decodedPath(c) {
 				r.Violate("extra-handler-saw-rewritten-path", fmt.Sprintf("extra handler %s was called for %s but saw URL path %q", p, c.URLPath, seen), c)
 			} else {
 				r.Distinct("extra:" + p)
@@ -321,7 +347,7 @@ func exec(r *mon.Run, e *env, c *Case) {
 		}
 	}
 	if len(extraSeen) > 0 {
-		r.Violate("extra-handler-got-foreign-path", fmt.Sprint(extraSeen), c)
+		r.Violate("extra-handler-got-foreign-path", fmt.Sprintf("%v (mount patterns %v)", extraSeen, c.Patterns), c)
 		return
 	}
 	pre, ok := mountFor(c.Patterns, c.URLPath)
@@ -347,6 +373,45 @@ func exec(r *mon.Run, e *env, c *Case) {
 	r.Distinct(fmt.Sprintf("%s/%s/%d/npat%d", cls, c.Req.Kind, got.Code, min(len(c.Patterns), 3)))
 }
 
+// decodedPath is the URL path a handler sees for the case's request.
+func decodedPath(c *Case) string {
+	if c.Req.Escaped {
+		if u, err := url.PathUnescape(c.URLPath); err == nil {
+			return u
+		}
+	}
+	return c.URLPath
+}
+
+func btoi(b bool) int {
+	if b {
+		return 1
+	}
+	return 0
+}
+
+var (
+	tlsOnce sync.Once
+	tlsCfg  *tls.Config
+)
+
+// testTLS returns a server TLS configuration with a self-signed certificate.
+func testTLS() *tls.Config {
+	tlsOnce.Do(func() {
+		key, err := ecdsa.GenerateKey(elliptic.P256(), crand.Reader)
+		if err != nil {
+			panic(err)
+		}
+		tmpl := &x509.Certificate{SerialNumber: big.NewInt(1), Subject: pkix.Name{CommonName: "verif"}, NotBefore: time.Date(2000, 1, 1, 0, 0, 0, 0, time.UTC), NotAfter: time.Date(2090, 1, 1, 0, 0, 0, 0, time.UTC), DNSNames: []string{"localhost"}}
+		der, err := x509.CreateCertificate(crand.Reader, tmpl, tmpl, &key.PublicKey, key)
+		if err != nil {
+			panic(err)
+		}
+		tlsCfg = &tls.Config{Certificates: []tls.Certificate{{Certificate: [][]byte{der}, PrivateKey: key}}}
+	})
+	return tlsCfg
+}
+
 func min(a, b int) int {
 	if a < b {
 		return a
@@ -370,6 +435,7 @@ func Run(r *mon.Run) {
 	type setCfg struct {
 		set   []string
 		extra []string
+		tls   bool
 	}
 	var cfgs []setCfg
 	for si, set := range sets {
@@ -381,15 +447,44 @@ func Run(r *mon.Run) {
 		case r.Thorough() || len(set) == 1:
 			// single mounts (and everything in thorough) run both with and
 			// without extra handlers: NewServer takes different paths
-			cfgs = append(cfgs, setCfg{set, nil}, setCfg{set, withExtra})
+			cfgs = append(cfgs, setCfg{set: set}, setCfg{set: set, extra: withExtra})
 		case si%2 == 0:
-			cfgs = append(cfgs, setCfg{set, withExtra})
+			cfgs = append(cfgs, setCfg{set: set, extra: withExtra})
 		default:
-			cfgs = append(cfgs, setCfg{set, nil})
+			cfgs = append(cfgs, setCfg{set: set})
 		}
+	}
+	// extra handlers whose subtree covers mounts, a catch-all next to the
+	// mounts, an exact pattern inside a mount; and servers built with TLS
+	var more []setCfg
+	for ci, cfg := range cfgs {
+		has := map[string]bool{}
+		for _, p := range cfg.set {
+			has[strings.TrimSuffix(p, "/")] = true
+		}
+		if !has[""] && ci%2 == 0 {
+			more = append(more, setCfg{set: cfg.set, extra: []string{"/"}})
+		}
+		if !has["/a"] && (has["/a/b"] || has["/a/b/c"]) && ci%2 == 1 {
+			more = append(more, setCfg{set: cfg.set, extra: []string{"/a/", "/"}[:1+ci%2*btoi(!has[""])]})
+		}
+		if has["/api"] && ci%3 == 0 {
+			more = append(more, setCfg{set: cfg.set, extra: []string{"/api/v1/echo/xyz", "/api/v1/unary/"}})
+		}
+		if ci%4 == 0 {
+			more = append(more, setCfg{set: cfg.set, extra: cfg.extra, tls: true})
+		}
+	}
+	cfgs = append(cfgs, more...)
+	exec0 := exec
+	tlsNow := false
+	exec := func(r *mon.Run, e *env, c *Case) {
+		c.TLS = tlsNow
+		exec0(r, e, c)
 	}
 	for _, cfg := range cfgs {
 		set, extra := cfg.set, cfg.extra
+		tlsNow = cfg.tls
 		prefixes := map[string]bool{}
 		for _, p := range set {
 			prefixes[strings.TrimSuffix(p, "/")] = true
